@@ -213,7 +213,23 @@ def scenario_skip_check_while_other_fails():
         {"njob": 3, "keep_going": True, "thread_delay": {"p": 1.0, "max": 0.04, "seed": 7}}
 
 
+def scenario_drain_while_waiting_for_lock():
+    """Many short steps that read the same static file, three at a time; one of them fails on a
+    change of the file while the job loop, woken by another step that just finished, waits for the
+    database lock to dispatch the next one (every transaction waits a little: db_delay)."""
+    steps = {}
+    items = [["static", ["src/b.txt"] + [f"src/f{k}.txt" for k in range(16)]]]
+    sources = {"src/b.txt": "b\n"}
+    for k in range(16):
+        sources[f"src/f{k}.txt"] = f"f{k}\n"
+        steps[f"S{k}"] = {"kind": "do", "salt": "", "inp": ["src/b.txt", f"src/f{k}.txt"], "out": [f"out/s{k}.txt"]}
+        items.append(["step", f"S{k}"])
+    spec = {"sources": sources, "env": {}, "steps": steps, "plans": {".": items}, "order": sorted(steps)}
+    return spec, [], {"njob": 4}
+
+
 SCENARIOS = {"forced_overlap": scenario_forced_overlap,
+             "drain_while_waiting_for_lock": scenario_drain_while_waiting_for_lock,
              "skip_check_while_other_fails": scenario_skip_check_while_other_fails, "amend_running_producer": scenario_amend_running_producer,
              "static_changes_while_running": scenario_static_changes_while_running}
 
@@ -469,10 +485,16 @@ def run_case(case):
                         cfg = {**cfg, "keep_going": True}
                     if rng.random() < 0.3:
                         cfg = {**cfg, "thread_delay": {"p": rng.choice([0.3, 1.0]), "max": 0.02, "seed": rng.randrange(1 << 30)}}
+                    if rng.random() < 0.3:
+                        cfg = {**cfg, "db_delay": {"p": rng.choice([0.1, 0.4]), "max": 0.003, "seed": rng.randrange(1 << 30)}}
                     mode = rng.choice(["jitter", "serial", "serial", "free"])
                     if case.get("scenario") == "forced_overlap":
                         mode = "free"
                     prob = rng.choice([0, 0, 0.15, 0.3])
+                    if case.get("scenario") == "drain_while_waiting_for_lock":
+                        mode = rng.choice(["free", "jitter"])
+                        prob = 0.5
+                        cfg = {**cfg, "db_delay": {"p": 1.0, "max": 0.01, "seed": rng.randrange(1 << 30)}}
                     if case.get("scenario") == "skip_check_while_other_fails":
                         mode = "free"
                         prob = 1.0 if k else 0
